@@ -190,6 +190,48 @@ def decisions(ctx, tsc):
     return accepted
 
 
+def decisions_aniso(ctx, tsc, accepted):
+    """the same decision on anisotropic grids partitioned along coord = 1, 2: the stripe count must be the
+    model's choice for the length of THAT axis (whatever the other axes are), and accepted configurations
+    are handed to the row-set oracle with g = shape[coord]"""
+    rec = []
+    real = tsc._tsc_parallel
+    tsc._tsc_parallel = lambda ppart, starts, dens, box, weights, offset: rec.append(len(starts) - 1)
+    pos = np.empty((0, 3), dtype=np.float64)
+    w = np.empty(0, dtype=np.float64)
+    sizes = [1, 2, 3, 5, 6, 7, 12, 13, 24, 48, 64]
+    rng = ctx.rng
+    todo = []
+    for coord in (1, 2):
+        for g in sizes:
+            for other in ctx.pick([1, 9, 64], sizes):
+                for nthread in (2, 3, 4, 8, 16):
+                    for npart in (None, 2, 3, 4, 8, 16, g // 2, g // 3):
+                        shape = [int(other), int(rng.choice(sizes)), int(rng.choice(sizes))]
+                        shape[coord] = g
+                        todo.append((tuple(shape), coord, nthread, npart))
+    try:
+        outs = ctx.driver.query(['choose %d %d %s' % (sh[c], nt, 'none' if p is None else p) for sh, c, nt, p in todo])
+        for (shape, coord, nthread, npart), mo in zip(todo, outs):
+            dens = np.zeros(shape)
+            del rec[:]
+            try:
+                tsc.tsc_parallel(pos, dens, 64.0, weights=w, nthread=nthread, wrap=False, npartition=npart, coord=coord)
+                r = rec[0] if len(rec) == 1 else 'calls:%d' % len(rec)
+            except ValueError:
+                r = 'rejected'
+            m = int(mo[3:]) if mo.startswith('ok ') else mo[4:] if mo.startswith('err ') else mo
+            case = {'kind': 'config-aniso', 'shape': list(shape), 'coord': coord, 'nthread': nthread, 'npartition': npart}
+            ctx.case(case, nontrivial=shape[coord] >= 6)
+            ctx.count('decision-aniso:' + ('rejected' if r == 'rejected' else 'accepted'))
+            if m != r:
+                ctx.disagree('npartition decision of tsc_parallel on an anisotropic grid', case, m, r)
+            if isinstance(r, int) and r >= 3:
+                accepted.setdefault((shape[coord], r), dict(case, n1d=shape[coord]))
+    finally:
+        tsc._tsc_parallel = real
+
+
 # --------------------------------------------------------------------------- (b) rows and stripes
 
 def rows_corr(ctx, tsc):
@@ -491,6 +533,8 @@ def run(ctx):
     accepted = decisions(ctx, tsc)
     ctx.exhaustive = True
     stages['decisions'] = round(time.time() - t0, 1)
+    decisions_aniso(ctx, tsc, accepted)
+    stages['decisions-aniso'] = round(time.time() - t0, 1)
     phases_corr(ctx, tsc)
     stages['phases'] = round(time.time() - t0, 1)
     rows_corr(ctx, tsc)
